@@ -85,7 +85,7 @@ pub fn shrink(sc: &Scenario, cfg: &RunCfg, tape: Vec<u32>, clause: &str, finding
     let mut runs = 0u64;
     let budget = 3000u64;
     let started = Instant::now();
-    let mut try_cand = |cand: Vec<u32>, best: &mut Vec<u32>, runs: &mut u64| -> bool {
+    let try_cand = |cand: Vec<u32>, best: &mut Vec<u32>, runs: &mut u64| -> bool {
         if *runs >= budget || started.elapsed().as_secs() > 60 {
             return false;
         }
@@ -208,7 +208,11 @@ pub fn worker_main(prop: &str, tier: Tier, widx: u64, wcount: u64, out: &Path) -
     let seed = base_seed();
     let mut agg = Agg::new();
     let scale: f64 = std::env::var("VERIF_SCALE").ok().and_then(|s| s.parse().ok()).unwrap_or(1.0);
+    let only = std::env::var("VERIF_ONLY").ok();
     'outer: for sc in &spec.scenarios {
+        if only.as_deref().map(|o| o != sc.name).unwrap_or(false) {
+            continue;
+        }
         let n = ((runs_for(sc, tier) as f64) * scale).ceil() as u64;
         let mut idx = widx;
         while idx < n {
@@ -625,4 +629,51 @@ pub fn replay_main(path: &Path) -> i32 {
             0
         }
     }
+}
+
+// ------------------------------------------------------------------ determinism fingerprints
+
+/// Prints one line per run (scenario, index, schedule hash, tape hash, steps, verdict) for
+/// runs `from..to` of every scenario of the property; `stride`/`offset` select a subset
+/// so that different process layouts can be compared line by line.
+pub fn fingerprint_main(prop: &str, tier: Tier, from: u64, to: u64, offset: u64, stride: u64, out: &Path) -> i32 {
+    sim_core::install_panic_hook();
+    let spec = match property_spec(prop) {
+        Some(s) => s,
+        None => return 2,
+    };
+    let seed = base_seed();
+    let mut text = String::new();
+    let only = std::env::var("VERIF_ONLY").ok();
+    for sc in &spec.scenarios {
+        if only.as_deref().map(|o| o != sc.name).unwrap_or(false) {
+            continue;
+        }
+        let mut idx = from + offset;
+        while idx < to {
+            let cfg = RunCfg { tier, index: idx, keep_trace: false };
+            let r = execute(sc, &cfg, TapeSrc::Seed(run_seed(seed, sc.name, idx)));
+            let mut th = 0u64;
+            for v in &r.tape {
+                th = sim_core::tape::mix(th, u64::from(*v));
+            }
+            let counters = r.counters.iter().map(|(k, v)| format!("{k}={v}")).collect::<Vec<_>>().join(",");
+            text.push_str(&format!(
+                "{} {} {:016x} {:016x} {} {} {} [{}]\n",
+                sc.name,
+                idx,
+                r.sched_hash,
+                th,
+                r.steps,
+                r.sim_ns,
+                r.violation.map(|v| v.clause).unwrap_or_else(|| "-".into()),
+                counters
+            ));
+            idx += stride;
+        }
+    }
+    if std::fs::write(out, text).is_err() {
+        return 2;
+    }
+    0
 }
